@@ -100,6 +100,8 @@ class Agent:
             data = rc.tlv(0x04, ct)
         flags = (1 if flag_auth else 0) | (2 if flag_priv else 0) | flags_extra
         authp = b"" if mac == "absent" else bytes(12)
+        if isinstance(mac, dict) and mac["kind"] in ("short", "long"):
+            authp = bytes(mac["k"])                       # a field of another length (the MAC is computed over the message as sent)
         d = rc.enc_v3_msg(msgid, flags, engine, boots, time, user, authp, privp, data, form=form) + trailing
         if mac != "absent":
             m = rc.parse_msg(d)
@@ -114,9 +116,13 @@ class Agent:
                 tag = rx.hmac96(alg, ka, d)
                 if mac == "flip":
                     tag = bytes([tag[0] ^ 1]) + tag[1:]
+                elif isinstance(mac, dict) and mac["kind"] == "short":
+                    tag = tag[:mac["k"]]
+                elif isinstance(mac, dict) and mac["kind"] == "long":
+                    tag = tag + bytes(range(1, mac["k"] - 11))
                 elif isinstance(mac, dict):
                     tag = near_mac(tag, mac)
-            d = d[:pos] + tag + d[pos + 12:]
+            d = d[:pos] + tag + d[pos + len(authp):]
         return d[:len(d) - truncate] if truncate else d
 
     def report(self, cfg, req, oid=(1, 3, 6, 1, 6, 3, 15, 1, 1, 4, 0), counter=1, **kw):
